@@ -11,7 +11,7 @@ View == st
 
 Ops(s) ==
   (IF s.vals # {} /\ Cardinality(DOMAIN s.hs) < MaxHandles
-   THEN {[k |-> k, o |-> o, z |-> z] : k \in {"ab", "at"}, o \in BOOLEAN, z \in BOOLEAN} \cup {[k |-> "adc", o |-> o, z |-> FALSE] : o \in BOOLEAN}
+   THEN {[k |-> k, o |-> o, z |-> z] : k \in {"ab", "at"}, o \in BOOLEAN, z \in BOOLEAN} \cup {[k |-> "adc", o |-> o, z |-> z] : o \in BOOLEAN, z \in BOOLEAN}
    ELSE {})
   \cup {[k |-> "drop", h |-> h] : h \in DOMAIN s.hs}
   \cup {[k |-> "detach", h |-> h] : h \in {h \in DOMAIN s.hs : ~s.hs[h].det}}
@@ -24,6 +24,7 @@ Next == /\ Len(hist) < MaxLen
         /\ \E op \in Ops(st) :
              LET s2 == Step(st, op) IN
              /\ Assert(DropDelta(st, op, s2), <<"DropDelta", op>>)
+             /\ Assert(DroppedOnceOverLife(st, op, s2), <<"DroppedOnceOverLife", op>>)
              /\ st' = s2
              /\ hist' = Append(hist, op)
              /\ (Emit => PrintT(ToJson([drv |-> hist'])))
